@@ -1021,7 +1021,8 @@ def assign_paths(spec, rng):
         if rng.random() < 0.6:
             for _ in range(5):
                 cand = rng.choice(NEAR_MISS_FILES) if rng.random() < 0.15 else near_path(rng.choice(NEAR_MISS_DIRS), rng.randrange(7)).replace("/m.rs", "/m%d.rs" % k)
-                if cand not in used:
+                # a file path may not be a directory of another file (src/target.rs next to src/target.rs/m2.rs)
+                if cand not in used and not any(u.startswith(cand + "/") or cand.startswith(u + "/") for u in used):
                     ps[k] = cand
                     used.add(cand)
                     break
